@@ -9,7 +9,11 @@
 #include "gens.h"
 #include "tc.h"
 
+#include "QXmppSocks.h"
 #include "QXmppTransferManager.h"
+#include "lb.h"
+
+#include <QTcpSocket>
 
 #include <QBuffer>
 #include <QCryptographicHash>
@@ -435,6 +439,121 @@ VCHECK("c19.wrap", 16)
     uint32_t fi = t.u(uint32_t(c.param("faults", 2)));
     static const int faults[] = { None, BitFlip, Drop, SeqOffByOne, EarlyClose };
     scripted(t, c, size, b, faults[fi]);
+}
+
+// ---- SOCKS5 bytestream: scripted sender with a local stream host -> real receiver --------------------------------
+// faults on the byte stream: none | cut short | extra bytes | one byte altered (same length) | two blocks swapped (same length)
+VCHECK("c19.socks", 40)
+{
+    TestClient::resetIdCounter();
+    Peer r;
+    r.jid = QStringLiteral("bob@example.org/desk");
+    r.client = std::make_unique<TestClient>(QXmppClient::NoExtensions);
+    r.client->configuration().setJid(r.jid);
+    r.tm = r.client->addNewExtension<QXmppTransferManager>();
+    r.tm->setSupportedMethods(QXmppTransferJob::SocksMethod);
+    r.client->beginSession(true, false);
+    r.client->pump(1);
+    r.client->take();
+    const QString sender = QStringLiteral("alice@example.org/phone");
+    qint64 size = t.prob(1, 4) ? qint64(t.pick<int>({ 1, 2, 4096, 65536, 100000 })) : 1 + qint64(t.u(50000));
+    int fault = int(t.weighted({ 4, 2, 2, 3, 2 }));   // 0 none, 1 cut short, 2 extra bytes, 3 byte altered, 4 blocks swapped
+    static const char *fn[] = { "none", "cut-short", "extra-bytes", "byte-altered-same-length", "blocks-swapped-same-length" };
+    QByteArray content(int(size), 0);
+    {
+        uint64_t x = 0x9e3779b97f4a7c15ull ^ (uint64_t(t.u(4)) << 7);
+        for (qint64 i = 0; i < size; i++) {
+            x ^= x << 13;
+            x ^= x >> 7;
+            x ^= x << 17;
+            content[int(i)] = char(x >> 32);
+        }
+    }
+    QByteArray wire = content;
+    switch (fault) {
+    case 1: wire.chop(1 + int(t.u(uint32_t(std::min<qint64>(size, 2000))))); break;
+    case 2: wire += t.bytes(1 + t.u(64)); break;
+    case 3: {
+        int pos = int(t.u(uint32_t(std::min<qint64>(size, 4000))));
+        pos = int((qint64(pos) * 9973) % size);
+        wire[pos] = char(wire[pos] ^ char(1 << t.u(8)));
+        break;
+    }
+    case 4:
+        if (size >= 64) {
+            QByteArray a = wire.mid(0, 16), b = wire.mid(32, 16);
+            if (a != b) {
+                wire.replace(0, 16, b);
+                wire.replace(32, 16, a);
+            } else {
+                fault = 0;
+            }
+        } else {
+            fault = 0;
+        }
+        break;
+    }
+    std::string desc = std::string("socks5 scripted-sender size=") + std::to_string(size) + " fault=" + fn[fault];
+    c.sample([&] { return desc; });
+    c.label(std::string("fault:") + fn[fault]);
+    c.nontrivial(vh::fnv(desc));
+
+    QBuffer dst;
+    dst.open(QIODevice::WriteOnly);
+    QXmppTransferJob *rjob = nullptr;
+    QObject::connect(r.tm, &QXmppTransferManager::fileReceived, [&](QXmppTransferJob *job) {
+        rjob = job;
+        job->accept(&dst);
+    });
+    // the harness is the stream host
+    QXmppSocksServer socks;
+    c.require(socks.listen(), "c19 harness-socks-listen", "cannot listen for SOCKS5");
+    QTcpSocket *peerSocket = nullptr;
+    QObject::connect(&socks, &QXmppSocksServer::newConnection, [&](QTcpSocket *s, QString, quint16) { peerSocket = s; });
+
+    const QString sid = QStringLiteral("sid-socks");
+    auto inject = [&](const QString &id, const QString &child) {
+        r.client->injectXml(QStringLiteral("<iq type='set' id='%1' from=\"%2\" to=\"%3\">%4</iq>").arg(id, sender.toHtmlEscaped(), r.jid.toHtmlEscaped(), child));
+    };
+    inject(QStringLiteral("si1"), QStringLiteral("<si xmlns='http://jabber.org/protocol/si' id='%1' profile='http://jabber.org/protocol/si/profile/file-transfer'>"
+                                                "<file xmlns='http://jabber.org/protocol/si/profile/file-transfer' name='file.bin' size='%2' hash='%3'/>"
+                                                "<feature xmlns='http://jabber.org/protocol/feature-neg'><x xmlns='jabber:x:data' type='form'><field var='stream-method' type='list-single'>"
+                                                "<option><value>http://jabber.org/protocol/bytestreams</value></option></field></x></feature></si>")
+                                     .arg(sid)
+                                     .arg(size)
+                                     .arg(QString::fromLatin1(QCryptographicHash::hash(content, QCryptographicHash::Md5).toHex())));
+    r.client->pump(2);
+    c.require(rjob != nullptr, "c19 socks offer-not-accepted", "SOCKS5 offer not accepted: " + desc);
+    inject(QStringLiteral("bs1"), QStringLiteral("<query xmlns='http://jabber.org/protocol/bytestreams' sid='%1' mode='tcp'><streamhost jid=\"%2\" host='127.0.0.1' port='%3'/></query>").arg(sid, sender.toHtmlEscaped()).arg(socks.serverPort()));
+    bool connectedBack = lb::settleUntil([&] { return peerSocket != nullptr; }, 3000);
+    if (!connectedBack) {
+        c.label("inconclusive:receiver-did-not-connect-to-streamhost");
+        return;
+    }
+    lb::settle(5, 300);
+    // send the bytes in a few chunks, then close
+    int chunks = 1 + int(t.u(5));
+    for (int i = 0; i < chunks; i++) {
+        int from = int(qint64(wire.size()) * i / chunks), to = int(qint64(wire.size()) * (i + 1) / chunks);
+        peerSocket->write(wire.mid(from, to - from));
+        peerSocket->flush();
+        lb::settle(3, 200);
+    }
+    lb::settleUntil([&] { return peerSocket->bytesToWrite() == 0; }, 3000);
+    lb::settle(5, 300);
+    peerSocket->disconnectFromHost();
+    lb::settleUntil([&] { return rjob->state() == QXmppTransferJob::FinishedState; }, 3000);
+    r.client->pump(3);
+    lb::settle(5, 100);
+    const QByteArray got = dst.data();
+    const bool identical = got == content;
+    const bool rFinished = rjob->state() == QXmppTransferJob::FinishedState;
+    const bool rSuccess = rFinished && rjob->error() == QXmppTransferJob::NoError;
+    std::string outcome = std::string("receiver: ") + (!rFinished ? "unfinished" : rSuccess ? "NoError" : "error " + std::to_string(int(rjob->error()))) + ", delivered " + std::to_string(got.size()) + "/" + std::to_string(content.size()) +
+        " bytes" + (identical ? " (identical)" : " (DIFFERENT)");
+    if (fault == 0)
+        c.require(rSuccess && identical, "c19 socks honest-transfer-failed", "a fault-free SOCKS5 transfer did not end in success with identical content: " + outcome + "\n " + desc);
+    c.require(!rSuccess || identical, std::string("c19 socks success-reported-for-wrong-content ") + fn[fault], "the receiver reports success but does not hold the bytes that were sent: " + outcome + "\n " + desc);
 }
 
 VH_MAIN()
